@@ -153,7 +153,25 @@ func (r *Reporter) TimeUp() bool {
 }
 
 func (r *Reporter) emit(v any) {
-	b, _ := json.Marshal(v)
+	b, err := json.Marshal(v)
+	if err != nil {
+		// a record must never be lost because some attachment cannot be serialised: keep its scalar fields, render
+		// the rest as text and say so (the driver treats "marshal_error" as a harness error on top of the record)
+		if m, ok := v.(map[string]any); ok {
+			safe := map[string]any{"marshal_error": err.Error()}
+			for k, x := range m {
+				if _, e2 := json.Marshal(x); e2 == nil {
+					safe[k] = x
+				} else {
+					safe[k] = fmt.Sprintf("%+v", x)
+				}
+			}
+			b, err = json.Marshal(safe)
+		}
+		if err != nil {
+			b, _ = json.Marshal(map[string]any{"t": "harness_error", "detail": "record could not be serialised: " + err.Error()})
+		}
+	}
 	r.w.Write(b)
 	r.w.WriteByte('\n')
 }
